@@ -72,6 +72,7 @@ type pathState struct {
 	discharged   int
 	assumes      int
 	hashApps     map[string][]*hashApp
+	hashSymbolic map[string]bool
 	funcsSeen    map[string]bool
 	stubsSeen    map[string]bool
 	notes        []string
@@ -204,6 +205,12 @@ func (ps *pathState) decideV(c *Term, isVal bool, val uint64) bool {
 func (ps *pathState) concretize(t *Term, what string) uint64 {
 	if t.op == OpConst {
 		return t.cval
+	}
+	if t.sort.K == SBool {
+		if ps.decide(t) {
+			return 1
+		}
+		return 0
 	}
 	limit := ps.cfg.ConcretizeCap
 	if limit <= 0 {
